@@ -126,6 +126,12 @@ def main():
     except (ToolError, gen.GenError) as e:
         print("UNDECIDED: %s" % e)
         return 2
+    except Exception:
+        # a defect of this tool is never a verdict about the code: exit 2 (undecided), never 1
+        import traceback
+        traceback.print_exc()
+        print("UNDECIDED: internal error of the verification tool (traceback above)")
+        return 2
 
 
 if __name__ == "__main__":
